@@ -14,9 +14,12 @@ import WacModel.Decode
   * `specTree`: `canon (treeW W root) = canon (unfold A (component world))` — everything in the
                 first sentence except provenance;
   * `specInstance`: the instance type lists exactly the world's exports;
-  * `specUsesSound`: every `uses` entry `n ↦ (J, m)` of an interface/world X names another,
-                named interface J that exports a type `m` (or `n`), and X's item `n` *is* that
-                type (same tree, same resources);
+  * `specUsesSound`: every `uses` entry `n ↦ (J, m)` of an interface/world X names another
+                interface J that exports a type `m` (or `n`), and X's item `n` *is* that
+                type (same tree, same resources).  (J need not have an interface id: an instance
+                imported under a plain name is a legitimate source — the first version of S3
+                demanded an id because `TypeEncoder::use_aliases` did; that was the defect
+                `interface should have an id`, repaired in the encoder.)
   * `specUsesComplete`: whenever the type referenced by a type export `n` of instance X was
                 created by an export of a different instance (directly or through alias ids),
                 X records a `uses` entry for `n`.
@@ -239,7 +242,7 @@ def specInstance (a : Types) (world inst : Nat) : Option String :=
     else some "instance type is not the world's exports"
   | _, _ => some "dangling world / instance type"
 
-/-- S3 for one `uses` map: entries name a different, named interface that exports the type, and the
+/-- S3 for one `uses` map: entries name a different interface that exports the type, and the
 item is that very type -/
 def usesSound (a : Types) (self : Option Nat) (uses : List (Str × UsedType)) (items : List (Str × ItemKind)) :
     Option String :=
@@ -248,7 +251,6 @@ def usesSound (a : Types) (self : Option Nat) (uses : List (Str × UsedType)) (i
     | none => some s!"uses {String.ofList n}: dangling interface"
     | some j =>
       if self == some u.interface then some s!"uses {String.ofList n}: refers to the interface itself"
-      else if j.id.isNone then some s!"uses {String.ofList n}: source interface has no id"
       else
         match alGet j.exports (u.name.getD n), alGet items n with
         | some (.type tj), some (.type tx) =>
